@@ -20,13 +20,14 @@ func init() {
 }
 
 type hrCase struct {
-	Idx      int    `json:"idx"`
-	Scenario string `json:"scenario"` // complete | foreign-epochs | new-not-accepting | client-session-lost | back-to-back
-	Rebuilt  bool   `json:"one_session_lost_and_rebuilt_before_the_restart"`
-	Sessions int    `json:"sessions"`
-	Memfd    bool   `json:"memfd"`
-	Traffic  int    `json:"traffic_goroutines"`
-	Seed     int64  `json:"seed"`
+	Idx          int    `json:"idx"`
+	Scenario     string `json:"scenario"` // complete | foreign-epochs | new-not-accepting | client-session-lost | back-to-back
+	Rebuilt      bool   `json:"one_session_lost_and_rebuilt_before_the_restart"`
+	SlowHandOver bool   `json:"pause_longer_than_the_check_tick_between_the_sessions"`
+	Sessions     int    `json:"sessions"`
+	Memfd        bool   `json:"memfd"`
+	Traffic      int    `json:"traffic_goroutines"`
+	Seed         int64  `json:"seed"`
 }
 
 type hrTrip struct {
@@ -246,7 +247,7 @@ func runHotRestartCase(c *checkCtx, cs hrCase, can *canary) (res hrResult) {
 		world.Lock() // wait for round trips in flight
 		world.Unlock()
 	}
-	dial := &hrDialStat{}
+	dial := &hrDialStat{slow: cs.SlowHandOver}
 	hrDial.Store(sm, dial)
 	defer hrDial.Delete(sm)
 	tRestart := atomic.AddInt64(&clock, 1)
@@ -357,13 +358,13 @@ func runHotRestartCase(c *checkCtx, cs hrCase, can *canary) (res hrResult) {
 		{
 			// A hand-over that did not finish inside the protocol's own 2 s window (the listener gave up: not in its done state)
 			// although no fault was injected is only judged when the client's part was fast: if the handshakes with the new server
-			// took a large part of that window (or the scheduler canary is unhealthy) the time-out is the machine's, and what the
+			// took a large part of that window (or the harness itself paused the hand-over, or the scheduler canary is unhealthy) the time-out is the machine's, and what the
 			// still queued restart / foreign-epoch events do afterwards is a new restart, legitimately.
 			old.ln.mu.Lock()
 			lnDone := old.ln.state == hotRestartDoneState && old.ln.hotRestartAckCount == 0
 			old.ln.mu.Unlock()
 			dialMs := atomic.LoadInt64(&dial.totalNs) / 1e6
-			if !lnDone && (dialMs >= 700 || !can.healthy(200*time.Millisecond)) {
+			if !lnDone && (dialMs >= 700 || dial.slow || !can.healthy(200*time.Millisecond)) {
 				res.inconcl = fmt.Sprintf("the hand-over did not complete inside the protocol's 2 s window and the client's handshakes with the new server took %d ms of it "+
 					"(epochs %v, listener left the state after %d ms): a time-out of the machine, not judged", dialMs, epochs, res.listenerMs)
 				stopTraffic()
@@ -505,7 +506,11 @@ func runHotRestartCase(c *checkCtx, cs hrCase, can *canary) (res hrResult) {
 var hrForeign sync.Map // *Listener / *SessionManager -> true: inject foreign-epoch events for this execution
 
 // hrDial: per manager, the time its hot-restart handler spent inside newClientSession (dial + handshake with the new server)
-type hrDialStat struct{ startNs, totalNs int64 }
+type hrDialStat struct {
+	startNs, totalNs int64
+	slow             bool // this case: the hand-over of every session but the first is preceded by a pause longer than the manager's 100 ms check tick
+	seen             int32
+}
 
 var hrDial sync.Map
 
@@ -534,7 +539,13 @@ func checkHotRestart(c *checkCtx) {
 	k.on(vpSMHotRestartBeforeNew, func(obj interface{}, n int64) {
 		if m, _ := obj.(*SessionManager); m != nil {
 			if v, ok := hrDial.Load(m); ok {
-				atomic.StoreInt64(&v.(*hrDialStat).startNs, time.Now().UnixNano())
+				st := v.(*hrDialStat)
+				if st.slow && atomic.AddInt32(&st.seen, 1) == 2 {
+					// a slow hand-over: the manager's periodic check (100 ms tick) runs between the replacement of the first and
+					// of the second session. One pause per case: this handler runs on the process-wide event loop.
+					time.Sleep(115 * time.Millisecond)
+				}
+				atomic.StoreInt64(&st.startNs, time.Now().UnixNano())
 			}
 		}
 	})
@@ -566,7 +577,10 @@ func checkHotRestart(c *checkCtx) {
 	sem := make(chan struct{}, 4)
 	for i := 0; i < n; i++ {
 		rng := caseRand(c.seed, 600000+i)
-		cs := hrCase{Idx: i, Scenario: scen[i%len(scen)], Sessions: 1 + rng.Intn(4), Memfd: rng.Intn(2) == 0, Traffic: 4 + rng.Intn(5), Seed: rng.Int63(), Rebuilt: i%6 == 5}
+		cs := hrCase{Idx: i, Scenario: scen[i%len(scen)], Sessions: 1 + rng.Intn(4), Memfd: rng.Intn(2) == 0, Traffic: 4 + rng.Intn(5), Seed: rng.Int63(), Rebuilt: i%6 == 5, SlowHandOver: i%6 == 0 || i%12 == 4}
+		if cs.SlowHandOver && cs.Sessions < 2 {
+			cs.Sessions = 2 + rng.Intn(3)
+		}
 		wg.Add(1)
 		sem <- struct{}{}
 		go func(cs hrCase) {
